@@ -883,3 +883,24 @@ def _m64():
     from bfg9000.builtins import default as bd
     _patch_source(bd, 'make_all_rule', "deps=build_inputs['defaults'].outputs",
                   "deps=build_inputs['defaults'].fallback_defaults")
+
+
+@mutant('abspath_ignores_cwd_for_dot')
+def _m65():
+    # './x' is resolved against '/' instead of the current directory
+    from bfg9000.platforms import basepath as bp
+    orig = bp.BasePath.abspath.__func__
+
+    def abspath(cls, path, directory=None, absdrive=True):
+        if path.startswith('./'):
+            return cls('/' + path[2:], bp.Root.absolute, directory=directory)
+        return orig(cls, path, directory, absdrive)
+    bp.BasePath.abspath = classmethod(abspath)
+
+
+@mutant('depfile_first_dir_only_as_target')
+def _m66():
+    # makeify: only the first directory (in iteration order) gets its own rule
+    from bfg9000.builtins import find as bfind
+    _patch_source(bfind, 'write_depfile', '            for i in seen_dirs:\n                out.write(i.string(roots), Syntax.target)',
+                  '            for i in list(seen_dirs)[:1]:\n                out.write(i.string(roots), Syntax.target)')
